@@ -159,6 +159,9 @@ func refRoute(cs c14Case) (logs map[string][]string, emitted []string) {
 		}
 		for _, id := range rcpt {
 			rm := byId[id]
+			if rm.Mode == "ghost" {
+				continue // a machine without a specification can be shown nothing; the others still must be
+			}
 			logs[id] = append(logs[id], m.trail)
 			if m.n > 0 {
 				t := m.trail + ">" + id
@@ -206,7 +209,11 @@ func c14Exec(cs c14Case) c14Obs {
 	ctx := context.Background()
 	for _, m := range cs.Crew {
 		st := &core.State{NodeName: "start", Bs: map[string]interface{}{"mode": m.Mode, "target": m.Target}}
-		if err := c.SetMachine(ctx, m.Id, &crew.SpecSource{Inline: recorderSpec()}, st); err != nil {
+		src := &crew.SpecSource{Inline: recorderSpec()}
+		if m.Mode == "ghost" {
+			src = nil // a machine that has a state but (not yet) a specification
+		}
+		if err := c.SetMachine(ctx, m.Id, src, st); err != nil {
 			o.err = err.Error()
 			return o
 		}
@@ -345,14 +352,14 @@ func c14Crews(thorough bool) [][]recMachine {
 		a := ma
 		a.Id = ids[0]
 		out = append(out, []recMachine{a})
-		for _, mb := range modes {
+		for _, mb := range append(append([]recMachine{}, modes...), recMachine{Mode: "ghost"}) {
 			b := mb
 			b.Id = ids[1]
 			out = append(out, []recMachine{a, b})
 			if !thorough && (ma.Mode == "none" || mb.Mode == "none") {
 				continue
 			}
-			for _, mc := range []recMachine{{Mode: "none"}, {Mode: "unrouted"}, {Mode: "routed", Target: "a"}} {
+			for _, mc := range []recMachine{{Mode: "none"}, {Mode: "unrouted"}, {Mode: "routed", Target: "a"}, {Mode: "ghost"}} {
 				cc := mc
 				cc.Id = ids[2]
 				out = append(out, []recMachine{a, b, cc})
@@ -414,7 +421,7 @@ func C14sio(c *vh.Ctx) {
 	depth := c.Pick(2, 3)
 	c.Bound("sio_counter_depth", depth)
 	c.Bound("sio_map_order_deviations", bound)
-	c.Rule("sio: crews of 1-3 recorder machines (ids a, b, \"\"; each appends every message it receives to a log in its bindings and emits according to its mode {nothing, one routed to X, one unrouted, two (routed+unrouted), one routed to a list with a repeated id}) plus the built-in timers and captain; first message with every routing target {absent, a, b, unknown id, \"*\", lists with unknown / repeated / non-string members, empty list, \"timers\", \"captain\", a number, \"\"} and a non-map message; counter depth up to the bound; every machine-iteration order with at most k deviating map ranges (vrange); oracle: a breadth-first reference router with the documented recipient rule - per machine the multiset of received messages, breadth-first order, every emitted message reported exactly once, emission order kept. states = (crew, target) cases, traces = executions.")
+	c.Rule("sio: crews of 1-3 recorder machines (ids a, b, \"\"; each appends every message it receives to a log in its bindings and emits according to its mode {nothing, one routed to X, one unrouted, two (routed+unrouted), one routed to a list with a repeated id}, optionally one machine that has a state but no specification, which can be shown nothing) plus the built-in timers and captain; first message with every routing target {absent, a, b, unknown id, \"*\", lists with unknown / repeated / non-string members, empty list, \"timers\", \"captain\", a number, \"\"} and a non-map message; counter depth up to the bound; every machine-iteration order with at most k deviating map ranges (vrange); oracle: a breadth-first reference router with the documented recipient rule - per machine the multiset of received messages, breadth-first order, every emitted message reported exactly once, emission order kept. states = (crew, target) cases, traces = executions.")
 	var idx uint64
 	for _, cr := range c14Crews(!c.Quick()) {
 		spawners := 0
